@@ -24,6 +24,9 @@ theorem gen_defaults_eq_model :
     AtomsSource.defaultAtypeValue = defaultAtypeValue ∧ AtomsSource.defaultPosShape = defaultPosShape ∧
     AtomsSource.pbcShape = pbcShape ∧ AtomsSource.systemInitOrder = systemInitOrder := by decide
 
+/-- the dtype decision for the constructor's `pos` (`posLit` of the model casts exactly these kinds). -/
+theorem gen_posCastKinds_eq_model : AtomsSource.posCastKinds = posCastKinds := by decide
+
 theorem gen_intslice_eq_model : AtomsSource.intslice = intslice := by
   funext i; simp only [AtomsSource.intslice, intslice]
 
